@@ -15,29 +15,60 @@ import vlib
 
 ADDR = "cosmos1qyqszqgpqyqszqgpqyqszqgpqyqszqgpjnp7du"
 
-# typed arguments per tx command, and the message fields they must produce
+# what a user types for each request field, and what must arrive in the message
 # (decimals are typed as raw 18-decimal integers: see known finding C20/dec-arg-raw-integer)
-SCHED = '{"release_time":"2030-01-01T00:00:00Z","weight":"1000000000000000000"}'
-TX_SAMPLES = {
-    "CreateFixedPriceAuction": (
-        ["500000000000000000", "1000dn0", "dn1", SCHED, "2029-01-01T00:00:00Z", "2029-06-01T00:00:00Z"],
-        {"auctioneer": ADDR, "start_price": "0.500000000000000000", "selling_coin": {"denom": "dn0", "amount": "1000"},
-         "paying_coin_denom": "dn1", "start_time": "2029-01-01T00:00:00Z", "end_time": "2029-06-01T00:00:00Z"}),
-    "CreateBatchAuction": (
-        ["500000000000000000", "100000000000000000", "1000dn0", "dn1", SCHED, "3", "200000000000000000",
-         "2029-01-01T00:00:00Z", "2029-06-01T00:00:00Z"],
-        {"auctioneer": ADDR, "start_price": "0.500000000000000000", "min_bid_price": "0.100000000000000000",
-         "selling_coin": {"denom": "dn0", "amount": "1000"}, "paying_coin_denom": "dn1", "max_extended_round": 3,
-         "extended_round_rate": "0.200000000000000000", "start_time": "2029-01-01T00:00:00Z",
-         "end_time": "2029-06-01T00:00:00Z"}),
-    "CancelAuction": (["7"], {"auctioneer": ADDR, "auction_id": "7"}),
-    "PlaceBid": (["3", "batch-worth", "1500000000000000000", "100dn1"],
-                 {"auction_id": "3", "bidder": ADDR, "bid_type": "BID_TYPE_BATCH_WORTH",
-                  "price": "1.500000000000000000", "coin": {"denom": "dn1", "amount": "100"}}),
-    "ModifyBid": (["3", "9", "2000000000000000000", "150dn1"],
-                  {"auction_id": "3", "bidder": ADDR, "bid_id": "9", "price": "2.000000000000000000",
-                   "coin": {"denom": "dn1", "amount": "150"}}),
+SCHED1 = '{"release_time":"2030-01-01T00:00:00Z","weight":"500000000000000000"}'
+SCHED2 = '{"release_time":"2031-01-01T00:00:00Z","weight":"500000000000000000"}'
+SCHED_MSG = [{"release_time": "2030-01-01T00:00:00Z", "weight": "0.500000000000000000"},
+             {"release_time": "2031-01-01T00:00:00Z", "weight": "0.500000000000000000"}]
+TYPED = {
+    "start_price": ("500000000000000000", "0.500000000000000000"),
+    "min_bid_price": ("100000000000000000", "0.100000000000000000"),
+    "selling_coin": ("1000dn0", {"denom": "dn0", "amount": "1000"}),
+    "paying_coin_denom": ("dn1", "dn1"),
+    "max_extended_round": ("3", 3),
+    "extended_round_rate": ("200000000000000000", "0.200000000000000000"),
+    "start_time": ("2029-01-01T00:00:00Z", "2029-01-01T00:00:00Z"),
+    "end_time": ("2029-06-01T00:00:00Z", "2029-06-01T00:00:00Z"),
+    "auction_id": ("3", "3"),
+    "bid_id": ("9", "9"),
+    "bid_type": ("batch-worth", "BID_TYPE_BATCH_WORTH"),
+    "price": ("1500000000000000000", "1.500000000000000000"),
+    "coin": ("100dn1", {"denom": "dn1", "amount": "100"}),
 }
+SIGNER_FIELD = {"CreateFixedPriceAuction": "auctioneer", "CreateBatchAuction": "auctioneer",
+                "CancelAuction": "auctioneer", "PlaceBid": "bidder", "ModifyBid": "bidder"}
+
+
+def tx_variants(cmd):
+    """(typed args, expected message fields) for a tx command of the table; a repeated field
+    is exercised with 0, 1 and 2 elements"""
+    if cmd["rpc"] not in SIGNER_FIELD:
+        return []
+    pos, want = [], {SIGNER_FIELD[cmd["rpc"]]: ADDR}
+    sched_positional = False
+    for f in cmd["positional"]:
+        if f == "vesting_schedules":
+            sched_positional = True
+            pos.append(SCHED1)
+            continue
+        if f not in TYPED:
+            return []
+        pos.append(TYPED[f][0])
+        want[f] = TYPED[f][1]
+    if cmd["rpc"] not in ("CreateFixedPriceAuction", "CreateBatchAuction"):
+        return [(pos, want, "")]
+    if sched_positional:
+        w = dict(want); w["vesting_schedules"] = SCHED_MSG[:1]
+        return [(pos, w, ":1-schedule")]
+    out = []
+    for k in (0, 1, 2):
+        flags = []
+        for sc in (SCHED1, SCHED2)[:k]:
+            flags += ["--vesting-schedules", sc]
+        w = dict(want); w["vesting_schedules"] = SCHED_MSG[:k]
+        out.append((pos + flags, w, ":%d-schedules" % k))
+    return out
 
 
 def parse_table():
@@ -100,24 +131,31 @@ def run(tier, seed):
                 expect("cmd-help:" + word, rc2 == 0 and c["use"] in o2,
                        "/var/tmp/fundraisingd %s fundraising %s --help   # usage line must be `%s`\n%s" % (sub, word, c["use"], o2))
                 out["nontrivial"] += 1
-                if service == "Msg" and c["rpc"] in TX_SAMPLES:
-                    args, want = TX_SAMPLES[c["rpc"]]
-                    rc3, o3 = sh(binp, ["tx", "fundraising", word] + args +
-                                 ["--from", ADDR, "--generate-only", "--offline", "--account-number", "0", "--sequence", "0"], home)
-                    ok = False
-                    detail = o3
-                    if rc3 == 0:
-                        try:
-                            msg = json.loads(o3[o3.index("{"):])["body"]["messages"][0]
-                            bad = {k: (msg.get(k), v) for k, v in want.items() if msg.get(k) != v}
-                            ok = not bad
-                            detail = "fields differ (got, want): %s" % bad
-                        except Exception as e:
-                            detail = "unparsable output: %s\n%s" % (e, o3)
-                    expect("typed-is-sent:" + word, ok,
-                           "/var/tmp/fundraisingd tx fundraising %s %s --from %s --generate-only --offline --account-number 0 --sequence 0\n%s"
-                           % (word, " ".join("'%s'" % a for a in args), ADDR, detail))
-                    out["samples"].append(dict(command=word, typed=args))
+                if service == "Msg":
+                    if "vesting_schedules" in c["positional"]:
+                        out["violations"].append(dict(
+                            sig="repeated-field-positional:" + word, found=True, pid="C20",
+                            msg="`%s` binds the repeated field vesting_schedules as a positional argument: exactly one "
+                                "schedule can be typed, an auction with no schedule or with two or more instalments "
+                                "cannot be created from the command line" % word,
+                            ops=["# fundraisingd tx fundraising %s --help   # usage: %s" % (word, c["use"])]))
+                    for args, want, tag in tx_variants(c):
+                        rc3, o3 = sh(binp, ["tx", "fundraising", word] + args +
+                                     ["--from", ADDR, "--generate-only", "--offline", "--account-number", "0", "--sequence", "0"], home)
+                        ok = False
+                        detail = o3
+                        if rc3 == 0:
+                            try:
+                                msg = json.loads(o3[o3.index("{"):])["body"]["messages"][0]
+                                bad = {k: (msg.get(k), v) for k, v in want.items() if msg.get(k) != v}
+                                ok = not bad
+                                detail = "fields differ (got, want): %s" % bad
+                            except Exception as e:
+                                detail = "unparsable output: %s\n%s" % (e, o3)
+                        expect("typed-is-sent:" + word + tag, ok,
+                               "/var/tmp/fundraisingd tx fundraising %s %s --from %s --generate-only --offline --account-number 0 --sequence 0\n%s"
+                               % (word, " ".join("'%s'" % a for a in args), ADDR, detail))
+                        out["samples"].append(dict(command=word, typed=args))
         # decimals typed as decimals: documented finding
         rc4, o4 = sh(binp, ["tx", "fundraising", "place-bid", "3", "batch-worth", "1.5", "100dn1", "--from", ADDR,
                             "--generate-only", "--offline", "--account-number", "0", "--sequence", "0"], home)
